@@ -285,6 +285,12 @@ func (env *SpecEnv) ident(name string) SVal {
 	if g, ok := fv.eng.ghosts[name]; ok {
 		return fv.ghostSVal(env.st, g)
 	}
+	if name == "selcase" {
+		if t, ok := env.st.globals["sel:case"]; ok {
+			return SVal{T: t, Typ: types.Typ[types.Int]}
+		}
+		env.fail("selcase is only available in `aftercall select` hooks")
+	}
 	if name == "now" {
 		return SVal{T: fv.ctx.Func("now_", SInt), Typ: types.Typ[types.Int64]}
 	}
@@ -898,6 +904,17 @@ func (env *SpecEnv) call(e *SExpr) SVal {
 			// two slices share their backing array
 			a, b := env.eval(args[0]), env.eval(args[1])
 			return SVal{T: And(Eq(Field(a.T, 0), Field(b.T, 0)), Not(Eq(Field(a.T, 0), IntLit(0)))), Typ: types.Typ[types.Bool]}
+		case "closed", "closeonly":
+			// channel predicates: closed(c) = c has been closed; closeonly(c) = nothing is ever sent on c
+			x := env.eval(args[0])
+			if x.T == nil || x.T.Sort != SInt {
+				env.fail("%s() needs a channel", fe.Name)
+			}
+			arr := fv.chanClosed(env.st)
+			if fe.Name == "closeonly" {
+				arr = fv.closeOnly()
+			}
+			return SVal{T: Select(arr, x.T), Typ: types.Typ[types.Bool]}
 		case "same":
 			// logical identity of two values of the same type (all fields, whole arrays); Go's ==
 			// compares arrays element by element, which does not give congruence under
